@@ -25,6 +25,7 @@ type Opts struct {
 	In            string // optional input file (spec-written bags, abi opcodes)
 	Schema        string // TL schema AST (tools/tl2json.py)
 	AstOut        string // where the TL-B driver writes the reflection ASTs of its types
+	AbiOps        string // JSON list of {name, op} of the abi message opcodes
 }
 
 func (o Opts) thorough() bool { return o.Tier == "thorough" }
@@ -79,6 +80,9 @@ func (r *Rec) Skipped() bool {
 	i := r.next
 	return i < r.o.Skip || (r.o.Only >= 0 && i != r.o.Only)
 }
+
+// SkipSlot consumes one input index without executing anything.
+func (r *Rec) SkipSlot() { r.next++ }
 
 // Done tells that nothing further can be executed (replay of a single index that has been passed).
 func (r *Rec) Done() bool { return r.o.Only >= 0 && r.next > r.o.Only }
